@@ -103,6 +103,9 @@ func (c *addrConn) RemoteAddr() net.Addr { return c.r }
 // DialTCP opens a connection whose server side reports (laddr, raddr); the server side
 // is handed to honeytrap's accept loop, the client side is returned.
 func (l *memListener) DialTCP(laddr, raddr net.Addr) (net.Conn, error) {
+	// one dial at a time: the accepted socket must be the peer of the socket dialled here
+	dialMu.Lock()
+	defer dialMu.Unlock()
 	type res struct {
 		c   net.Conn
 		err error
